@@ -32,6 +32,7 @@ CONSTANTS
   SoccFresh,  \* select_on_container_copy_construction returns a different instance
   Ops,        \* names of the operations the scenario enables
   MaxCap, MaxCount, BudSet, NTags, MaxReserve,
+  FxVariants, \* generator only: which alternative FixedSize counts Construct is explored with ({0} = only F)
   MaxFault,   \* generator only: allocation-failure indices 1..MaxFault are explored (0: no faults)
   MinCap,     \* generator only: smallest capacity Construct is explored with
   PinAlloc    \* generator only: vector v is always constructed with allocator instance v (bounds who is addressed)
@@ -134,9 +135,21 @@ DefaultPar == [salt |-> 0, cap |-> -1, fault |-> 0, thrown |-> 0, fx |-> NoFixed
 ParCap(par, dflt) == IF par.cap < 0 THEN dflt ELSE par.cap
 
 \* --- construction / destruction
+\* two vectors of one type may be constructed with different FixedSize counts: variant 0 = F; variant 1 = the counts
+\* of F in reverse order when that differs from F (same total, different split), else every count + 1
+FixedIdx == {k \in 1..Len(P) : P[k].k = "fixed"}
+RECURSIVE NthOf(_, _)
+NthOf(Sx, n) == LET m == CHOOSE x \in Sx : \A y \in Sx : x <= y IN IF n = 1 THEN m ELSE NthOf(Sx \ {m}, n - 1)
+RankIn(Sx, k) == Cardinality({x \in Sx : x <= k})
+FRev == [k \in 1..Len(P) |-> IF k \in FixedIdx
+                                THEN F[NthOf(FixedIdx, Cardinality(FixedIdx) + 1 - RankIn(FixedIdx, k))] ELSE 0]
+FxOf(variant) == IF variant # 1 THEN F
+                 ELSE IF FRev # F THEN FRev
+                 ELSE [k \in 1..Len(P) |-> IF P[k].k = "fixed" THEN F[k] + 1 ELSE 0]
 PreConstruct(S0, v, cap, bud, al) == S0.vec[v] = Absent /\ cap >= 0 /\ bud >= 0
-EffConstruct(S0, v, cap, bud, al) ==
-  SetVec(S0, v, [st |-> "live", cap |-> cap, bud |-> IF HasVarying THEN bud ELSE 0, elems |-> <<>>, al |-> al, fx |-> F, dc |-> FALSE])
+EffConstruct(S0, v, cap, bud, al, variant) ==
+  SetVec(S0, v, [st |-> "live", cap |-> cap, bud |-> IF HasVarying THEN bud ELSE 0, elems |-> <<>>, al |-> al,
+                 fx |-> FxOf(variant), dc |-> FALSE])
 
 PreDefaultConstruct(S0, v) == S0.vec[v] = Absent
 EffDefaultConstruct(S0, v) ==
@@ -351,7 +364,10 @@ PreIterProbe(S0, v) == Live(S0, v)
 (***************************************************************************)
 RECURSIVE Pow3(_)
 Pow3(n) == IF n <= 0 THEN 1 ELSE 3 * Pow3(n - 1)
-ValC(code, k) == ((code \div Pow3(k - 1)) % 3) + 1
+DigitC(code, k) == ((code \div Pow3(k - 1)) % 3) + 1
+\* the LOGICAL value: for floating-point parameters the driver stores +0.0 for digit 1 and -0.0 for digit 2 - two
+\* representations of one value, which must compare equal (C13: equality of logical content, not of bytes)
+ValC(code, k) == IF P[k].flt = 1 /\ DigitC(code, k) = 2 THEN 1 ELSE DigitC(code, k)
 MkElemC(code, vs, fx) ==
   [t |-> code,
    f |-> [k \in Idx |-> IF P[k].k = "count" THEN <<vs[k + 1]>>
@@ -442,7 +458,7 @@ ThrowEff(S0, n, v, a) ==
 
 EffOf(S0, n, v, a, par) ==
   IF par.thrown = 1 THEN ThrowEff(S0, n, v, a) ELSE
-  CASE n = "Construct"        -> EffConstruct(S0, v, a[1], a[2], a[3])
+  CASE n = "Construct"        -> EffConstruct(S0, v, a[1], a[2], a[3], IF Len(a) >= 4 THEN a[4] ELSE 0)
     [] n = "DefaultConstruct" -> EffDefaultConstruct(S0, v)
     [] n = "Destroy"          -> EffDestroy(S0, v)
     [] n = "Emplace"          -> EffEmplace(S0, v, a[1], par.salt, SubSeq(a, 2, Len(a)))
@@ -515,7 +531,8 @@ Do(n, v, a) == \/ DoPar(n, v, a, 0)
                \/ (n \in FaultOps /\ \E k \in 1..MaxFault : DoPar(n, v, a, k))
 
 AllocChoice(v)   == IF PinAlloc /\ v \in Allocs THEN {v} ELSE Allocs
-Construct        == \E v \in Vecs, c \in MinCap..MaxCap, b \in BudSet : \E al \in AllocChoice(v) : Do("Construct", v, <<c, b, al>>)
+Construct        == \E v \in Vecs, c \in MinCap..MaxCap, b \in BudSet, fv \in FxVariants : \E al \in AllocChoice(v) :
+                       Do("Construct", v, IF fv = 0 THEN <<c, b, al>> ELSE <<c, b, al, fv>>)
 DefaultConstruct == \E v \in Vecs : Do("DefaultConstruct", v, <<>>)
 Destroy          == \E v \in Vecs : Do("Destroy", v, <<>>)
 EmplaceBack      == \E v \in Vecs, vs \in VsSpace : vec[v].st = "live" /\ Do("Emplace", v, <<FreshTag(v)>> \o vs)
